@@ -34,7 +34,7 @@ RULE = ("random scripts N=8..40 indices; distinct = canonical script JSON; non-t
 REQUIRED_BUCKETS = ["primary-closed", "primary-raises", "primary-raises-while-fallback-in-step", "fallback-closed", "fallback-late-start", "lag:-1", "lag:0",
                     "lag:1", "lag:2", "recovery-to-primary", "both-invalid", "fallback-value-used",
                     "primary-closed-before-any-failure", "other-terms:0", "other-terms:2",
-                    "tier-B(real FallbackFormulaMetricFetcher)", "tier-B:pv-meter", "tier-B:single-grid-meter"]
+                    "tier-B(real FallbackFormulaMetricFetcher)", "tier-B:pv-meter", "tier-B:single-grid-meter", "tier-B:single-grid-meter-reactive"]
 REQUIRED_COUNTERS = ["outputs_decoded", "scripts_run"]
 ASSUMPTIONS = ["tier A: the fallback is a test double at the public FallbackMetricFetcher seam; tier B: real PVPowerFormula + "
                "FallbackFormulaMetricFetcher over a fake resampler (registry channels served per ComponentMetricRequest)"]
@@ -67,7 +67,7 @@ def gen(rng: Any, tier: str, i: int) -> Any:
     fault = rng.choice([None, None, "close_primary", "close_primary", "raise_primary", "close_fallback"])
     if rng.random() < 0.3:
         # tier B: the real PVPowerFormula with its real FallbackFormulaMetricFetcher over a fake resampler
-        topo = rng.choice(["pv-meter", "pv-meter", "single-grid-meter"])
+        topo = rng.choice(["pv-meter", "pv-meter", "single-grid-meter", "single-grid-meter-reactive"])
         return {"tier": "B", "topo": topo, "N": N, "pmask": pmask, "fmask": [True] * N, "lag": 0, "fallback_skip": 0,
                 "n_other": 1 if topo == "pv-meter" else 0,
                 "fault": rng.choice([None, None, "close_primary"]), "fault_at": rng.randint(0, N - 1),
@@ -251,7 +251,8 @@ async def _drive_b(case: dict[str, Any], out: dict[str, Any]) -> None:
     C = ComponentCategory
     PRIMARY = 3
     formula_cls: Any = PVPowerFormula
-    if case.get("topo") == "single-grid-meter":
+    wanted_metric = "ACTIVE_POWER"
+    if case.get("topo") in ("single-grid-meter", "single-grid-meter-reactive"):
         # grid -> meter 2 -> PV inverters 4, 5: the only grid successor is a meter over devices of one kind; the grid
         # power formula reads that meter and falls back to the inverters
         from frequenz.sdk.timeseries.formula_engine._formula_generators import GridPowerFormula
@@ -261,6 +262,12 @@ async def _drive_b(case: dict[str, Any], out: dict[str, Any]) -> None:
         conns = [Connection(1, 2), Connection(2, 4), Connection(2, 5)]
         PRIMARY = 2
         formula_cls = GridPowerFormula
+        if case["topo"] == "single-grid-meter-reactive":
+            from frequenz.sdk.timeseries.formula_engine._formula_generators import \
+                GridReactivePowerFormula
+
+            formula_cls = GridReactivePowerFormula
+            wanted_metric = "REACTIVE_POWER"
     else:
         comps = [Component(1, C.GRID), Component(2, C.METER), Component(3, C.METER), Component(6, C.METER),
                  Component(4, C.INVERTER, InverterType.SOLAR), Component(5, C.INVERTER, InverterType.SOLAR),
@@ -295,19 +302,24 @@ async def _drive_b(case: dict[str, Any], out: dict[str, Any]) -> None:
         while sub_rx._q:  # noqa: SLF001  (new subscriptions are served from the next tick on, like the resampler)
             req = sub_rx.consume()
             ch = reg.get_or_create(Sample[Quantity], req.get_channel_name())
-            subs.append((req.component_id, ch.new_sender(), ch, req.namespace))
+            # the resampler publishes per requested metric: a stream of another metric than the formula's carries
+            # recognisably different numbers
+            subs.append((req.component_id, ch.new_sender(), ch, req.namespace, req.metric_id.name))
             if req.component_id in (4, 5) and "fallback_received" not in log:
                 log["fallback_received"] = list(range(k, total))
                 log["started_at_sent"] = k
         ts = fm.T0 + timedelta(seconds=k)
         order = sorted(subs, key=lambda x: (x[0] in (4, 5)) != case["order"][k])
-        for cid, tx, ch, _ns in order:
+        for cid, tx, ch, _ns, metric in order:
             if cid == PRIMARY and case["fault"] == "close_primary" and k >= case["fault_at"]:
                 if not closed:
                     await ch.close()
                     closed = True
                 continue
-            await tx.send(Sample(ts, value(cid, k)))
+            v = value(cid, k)
+            if metric != wanted_metric and v is not None:
+                v = Quantity(v.base_value + 4321.0)
+            await tx.send(Sample(ts, v))
         for _ in range(case["yields"][min(k, len(case["yields"]) - 1)]):
             await asyncio.sleep(0)
         for _ in range(400):
